@@ -219,6 +219,11 @@ def main(argv=None):
             o["family"] = r["family"]
             o["config"] = r.get("config", "int64")
             obligations.append(o)
+    for o in obligations:
+        if o["status"] == "vacuous":
+            checker_errors.append(f"vacuous proof: {o['name']}: {o.get('reason')}")
+    obligations = [o for o in obligations if o["status"] != "vacuous"]
+    n_canaries = sum(r.get("canaries", 0) for r in proof_results)
     n_ob = len(obligations)
     proved = [o for o in obligations if o["status"] == "proved"]
     by_backend = collections.Counter(o.get("solver", "?") for o in proved)
@@ -389,6 +394,7 @@ def main(argv=None):
             "obligations": n_ob, "discharged": len(proved), "discharged_by_backend": dict(by_backend),
             "undecided": [{"name": o["name"], "reason": o.get("reason", "")[:300]} for o in undecided][:40],
             "solver_time_s": round(solver_time, 3),
+            "vacuity_canaries_checked": n_canaries,
             "max_obligation_time_s": max([o.get("time", 0) or 0 for o in obligations] + [0]),
             "checker_cmd": f"./check {prop} --tier {tier}",
             "trusted_base": TRUSTED_BASE,
